@@ -9,10 +9,11 @@ import numpy as np
 ROOT = os.path.dirname(os.path.dirname(os.path.dirname(os.path.abspath(__file__))))
 REPO = os.environ.get('SMV_REPO', '/repo')
 
-def run_subprocess(modname, tier, seed, search, extra=None, timeout=3000):
+def _run_one(modname, tier, seed, search, extra, timeout):
     env = dict(os.environ); env['SMV_NOPATCH'] = '1'
     env['PYTHONPATH'] = ROOT + os.pathsep + REPO + os.pathsep + env.get('PYTHONPATH', '')
     env['MPLBACKEND'] = 'Agg'
+    env.setdefault('OMP_NUM_THREADS', '1'); env.setdefault('OPENBLAS_NUM_THREADS', '1')
     cmd = [sys.executable, '-m', modname, '--monitor', tier, str(seed), '1' if search else '0']
     if extra: cmd += list(extra)
     r = subprocess.run(cmd, cwd=ROOT, capture_output=True, text=True, env=env, timeout=timeout)
@@ -20,6 +21,36 @@ def run_subprocess(modname, tier, seed, search, extra=None, timeout=3000):
     if marker not in r.stdout:
         raise RuntimeError(f"monitor {modname} failed (exit {r.returncode}):\n{r.stderr[-3000:]}\n{r.stdout[-500:]}")
     return json.loads(r.stdout.split(marker, 1)[1])
+
+THOROUGH_SEEDS = 8      # the thorough tier runs the monitor with this many derived seeds in parallel and merges the results
+
+def run_subprocess(modname, tier, seed, search, extra=None, timeout=3000):
+    if tier != 'thorough' or extra:
+        return _run_one(modname, tier, seed, search, extra, timeout)
+    from concurrent.futures import ThreadPoolExecutor
+    seeds = [seed + 7919 * k for k in range(THOROUGH_SEEDS)]
+    with ThreadPoolExecutor(max_workers=THOROUGH_SEEDS) as ex:
+        parts = list(ex.map(lambda sd: _run_one(modname, tier, sd, search, None, timeout), seeds))
+    out = dict(parts[0]); out['seeds'] = seeds
+    viol = {}
+    for p_ in parts:
+        for v in p_.get('violations', []):
+            if v['signature'] in viol: viol[v['signature']]['count'] = viol[v['signature']].get('count', 1) + v.get('count', 1)
+            else: viol[v['signature']] = v
+    out['violations'] = list(viol.values())
+    out['cases'] = sum(p_.get('cases', 0) for p_ in parts)
+    out['distinct'] = sum(p_.get('distinct', 0) for p_ in parts) if not parts[0].get('exhaustive') else parts[0].get('distinct', 0)
+    st = {}
+    for p_ in parts:
+        for k, v in (p_.get('stats') or {}).items():
+            if isinstance(v, (int, float)): st[k] = st.get(k, 0) + v
+            else: st.setdefault(k, v)
+    out['stats'] = st
+    mr = {}
+    for p_ in parts:
+        for k, v in (p_.get('max_relative_residual') or {}).items(): mr[k] = max(mr.get(k, 0.0), v)
+    out['max_relative_residual'] = mr
+    return out
 
 def jsonable(x):
     if isinstance(x, np.ndarray): return x.tolist()
